@@ -1755,6 +1755,9 @@ class AbelianArray(BlockBase):
 
         if isinstance(axis, int):
             axis = (axis,)
+        if axis is not None:
+            # handle negative axes
+            axis = tuple(ax % x.ndim for ax in axis)
 
         keep = []
         selector = []
